@@ -143,7 +143,7 @@ class ObjectDomain(EffectDomain):
         from .absint import Frame
         holder = ast.parse("def _class_body():\n    pass").body[0]
         holder._module = ci.node._module
-        holder._parent = ci.node._module.tree
+        holder._parent = ci.node   # names of the class body (helper functions defined there) are in scope, then the module's
         holder._class = None
         frame = Frame(holder, fr.depth + 1, None, name=f"<class {ci.name}>", is_method=False)
         frame.caller = fr
@@ -164,6 +164,8 @@ class ObjectDomain(EffectDomain):
             base = fr.instance
         elif st.has(fr.local(chain[0])):
             base = st.get(fr.local(chain[0]))
+        elif fr.instance is None and fr.selfname and chain[0] == fr.selfname:
+            return self._root_attr(interp, chain, st, fr)
         else:
             return None
         if not is_inst(base) and not (base == ("self",) and chain[0] != fr.selfname):
@@ -194,6 +196,11 @@ class ObjectDomain(EffectDomain):
             got = self._inst_attr(interp, value, attr, st, fr)
             return got if got is not None else [val(TOP, st)]
         if isinstance(value, tuple) and value[:1] == ("wobj",):
+            if attr in self.log_reads and not st.has(f"obj.{value[1]}.{attr}"):
+                # a data attribute of a wrapped object whose reads are observed
+                name = f"{value[1]}.{attr}"
+                log = st.get("ev.calls", ())
+                return [val(self.attrs.get(name, ("attr", value, ("const", attr))), st.set("ev.calls", log + ((name + ":read", (), (), "ok"),)))]
             a = st.get(f"obj.{value[1]}.{attr}") if st.has(f"obj.{value[1]}.{attr}") else self.attrs.get(f"{value[1]}.{attr}")
             return [val(a if a is not None else ("bound", value[1], attr), st)]
         if value == ("self",):
@@ -439,6 +446,115 @@ class ObjectDomain(EffectDomain):
     def _wrap_generator(self, f, results, fr):
         return results
 
+    # -- decorators ----------------------------------------------------------------------------------
+    # Decorators that do not change what a call of the function does, as far as this model goes: descriptors the
+    # class table already understands, and markers whose meaning the engine implements itself.
+    TRANSPARENT_DECORATORS = {"property", "cached_property", "staticmethod", "classmethod", "abstractmethod", "contextmanager", "inlineCallbacks", "setter", "getter", "deleter",
+                              "overload", "final", "override", "skip", "skipIf", "skipUnless", "expectedFailure"}
+
+    def _decorator_values(self, interp, func, st, fr):
+        """The decorators of ``func`` that are callables of the repository, innermost first, as abstract values;
+        None when one of them cannot be followed (the function is then taken as written)."""
+        out = []
+        for dexpr in reversed(func.decorator_list):
+            name = (dotted(dexpr.func if isinstance(dexpr, ast.Call) else dexpr) or "").split(".")[-1]
+            if name in self.TRANSPARENT_DECORATORS:
+                continue
+            if isinstance(dexpr, ast.Call) and name == "wraps":
+                continue   # functools.wraps(f): copies metadata onto the wrapper, the wrapper itself is unchanged
+            if isinstance(dexpr, ast.Name):
+                mod = getattr(func, "_module", None)
+                target = self._lookup_function(dexpr.id, fr) or (self.classes.lookup_function(mod, dexpr.id) if mod is not None and hasattr(self.classes, "lookup_function") else None)
+                if target is None or target is func:
+                    return None
+                out.append(("func", target))
+                continue
+            return None
+        return out
+
+    def _module_frame(self, func, caller):
+        from .absint import Frame
+        holder = ast.parse("def _applying_decorators():\n    pass").body[0]
+        holder._module = getattr(func, "_module", None)
+        holder._parent = getattr(holder._module, "tree", None)
+        holder._class = None
+        frame = Frame(holder, (caller.depth + 1) if caller is not None else 0, None, name=f"<decorators of {getattr(func, 'name', '?')}>", is_method=False)
+        frame.caller = caller
+        return frame
+
+    def decorated_call(self, interp, func, argvals, st, caller, receiver, is_method, self_value):
+        """A call of a function whose decorators are functions of the repository: the decorators run (on the function
+        as written), and what they return is called with the arguments.  None: take the function as written."""
+        frame = self._module_frame(func, caller)
+        decos = self._decorator_values(interp, func, st, frame)
+        if not decos:
+            return None
+        cur = [val(("func", func, (("<raw>", TRUE),)), st)]
+        for dv in decos:
+            nxt = []
+            for r in cur:
+                if r.kind == "exc":
+                    return None
+                nxt.extend(self.apply(interp, dv, [r.value], [], r.state, frame))
+            cur = nxt
+        if not cur or any(r.kind != "val" or not (isinstance(r.value, tuple) and r.value[:1] and r.value[0] in CALLABLE_TAGS) for r in cur):
+            return None   # the decorators hand back something this model cannot call (an external wrapper, ...)
+        a = func.args
+        is_meth = is_method and getattr(func, "_class", None) is not None and bool(a.args) and "staticmethod" not in self._decorators(func)
+        params = [p.arg for p in a.posonlyargs + a.args][1 if is_meth else 0:]
+        pos, kw = [], []
+        if is_meth:
+            pos.append(self_value if self_value is not None else ("self",))
+        positional = True
+        for p_ in params:
+            if p_ in argvals and positional:
+                pos.append(argvals[p_])
+            elif p_ in argvals:
+                kw.append((p_, argvals[p_]))
+            else:
+                positional = False
+        if a.vararg is not None and a.vararg.arg in argvals:
+            extra = argvals[a.vararg.arg]
+            if not (isinstance(extra, tuple) and extra[:1] == ("tuple",)) or not positional:
+                return None
+            pos.extend(extra[1:])
+        for p_ in [x.arg for x in a.kwonlyargs]:
+            if p_ in argvals:
+                kw.append((p_, argvals[p_]))
+        if a.kwarg is not None and a.kwarg.arg in argvals:
+            more = argvals[a.kwarg.arg]
+            if not (isinstance(more, tuple) and more[:1] == ("kwdict",)):
+                return None
+            kw.extend(more[1])
+        out = []
+        for r in cur:
+            out.extend(self.apply(interp, r.value, pos, kw, r.state, frame))
+        return out
+
+    def decorate_nested(self, interp, node, closure, st, fr):
+        """`@deco def inner(...)` inside a function: the name is bound to what the decorators return."""
+        decos = self._decorator_values(interp, node, st, fr)
+        if decos is None:
+            # decorators given as expressions (a parameter, a call): evaluate them
+            decos = []
+            for dexpr in reversed(node.decorator_list):
+                name = (dotted(dexpr.func if isinstance(dexpr, ast.Call) else dexpr) or "").split(".")[-1]
+                if name in self.TRANSPARENT_DECORATORS or (isinstance(dexpr, ast.Call) and name == "wraps"):
+                    continue
+                got = [r for r in interp.eval(dexpr, st, fr)]
+                if len(got) != 1 or got[0].kind != "val" or not (isinstance(got[0].value, tuple) and got[0].value[:1] and got[0].value[0] in CALLABLE_TAGS):
+                    return None
+                decos.append(got[0].value)
+        if not decos:
+            return None
+        cur = [val(closure, st)]
+        for dv in decos:
+            nxt = []
+            for r in cur:
+                nxt.extend([r] if r.kind == "exc" else self.apply(interp, dv, [r.value], [], r.state, fr))
+            cur = nxt
+        return cur
+
     def instantiate(self, interp, ci, pos, kw, st, fr):
         n = st.get("ev.inst", 0)
         inst = ("inst", n, ci)
@@ -519,6 +635,16 @@ class ObjectDomain(EffectDomain):
             return out
         if tag == "func":
             node = fn[1]
+            if isinstance(node, FUNC_TYPES) and getattr(node, "_class", None) is not None and pos and (pos[0] == ("self",) or is_inst(pos[0])) \
+                    and node.args.args and not self._decorators(node) & {"staticmethod", "classmethod"}:
+                # a method as a plain function, handed its object explicitly (what a decorator's wrapper does): the method runs on that object
+                argvals = self._bind(node, pos[1:], kw, True)
+                if argvals is None:
+                    return [exc(("exc", "TypeError"), st)]
+                root = getattr(self, "root_class", None) or fr.receiver
+                res = interp.inline(node, argvals, st, fr, receiver=(pos[0][2] if is_inst(pos[0]) else root), is_method=True, closure_env=fn[2] if len(fn) == 3 else (),
+                                    self_value=pos[0] if is_inst(pos[0]) else None)
+                return self._wrap_generator(node, res, fr)
             argvals = self._bind(node, pos, kw, False) if not isinstance(node, ast.Lambda) or True else None
             if argvals is None:
                 return [exc(("exc", "TypeError"), st)]
@@ -636,16 +762,9 @@ class ObjectDomain(EffectDomain):
             for r in cur:
                 if r.kind == "exc":
                     nxt.append(r)
-                elif is_inst(r.value):
-                    got = self._inst_attr(interp, r.value, attr, r.state, fr)
-                    nxt.extend(got if got is not None else [val(TOP, r.state)])
-                elif isinstance(r.value, tuple) and r.value[:1] == ("wobj",):
-                    a = self.attrs.get(f"{r.value[1]}.{attr}")
-                    nxt.append(val(a if a is not None else ("bound", r.value[1], attr), r.state))
-                elif r.value == ("self",):
-                    nxt.extend(self._root_value_attr(interp, attr, r.state, fr))
-                else:
-                    nxt.append(val(TOP, r.state))
+                    continue
+                got = self.attr_of_value(interp, r.value, attr, r.state, fr)
+                nxt.extend(got if got is not None else [val(TOP, r.state)])
             cur = nxt
         return cur
 
@@ -778,6 +897,17 @@ class ObjectDomain(EffectDomain):
         if d in ("nullcontext", "contextlib.nullcontext") and len(call.args) <= 1 and not call.keywords:
             return [r if r.kind == "exc" else val(("nullcontext", r.value[0] if r.value else NONE), r.state) for r in interp.eval_list(list(call.args), st, fr)]
         # functools.partial / operator helpers as values
+        if d in ("partial", "functools.partial") and call.args and (any(isinstance(a, ast.Starred) for a in call.args) or any(k.arg is None for k in call.keywords)):
+            # partial(f, *args, **kwargs): exact sequences / dicts spread out
+            out = []
+            for bad, pos, kw, s2 in self._call_args(interp, call, st, fr):
+                if bad is not None:
+                    out.append(bad)
+                elif pos is None or not pos:
+                    out.append(val(TOP, s2))
+                else:
+                    out.append(val(("partial", pos[0], tuple(pos[1:]), tuple(kw)), s2))
+            return out
         if d in ("partial", "functools.partial") and call.args and not any(isinstance(a, ast.Starred) for a in call.args) and all(k.arg is not None for k in call.keywords):
             out = []
             # the arguments frozen into the partial are the caller's objects themselves (a list it goes on filling, ...)
